@@ -233,8 +233,11 @@ mod verif_search {
         let mut n = 0u64;
         for round in 0..300 {
             let ulen = 1 + (rng.next() % 16) as usize; let plen = 1 + (rng.next() % 16) as usize;
-            let uname: String = (0..ulen).map(|_| (0x20 + (rng.next() % 0x5f) as u8) as char).collect();
-            let pass: String = (0..plen).map(|_| (0x20 + (rng.next() % 0x5f) as u8) as char).collect();
+            let mut uname: String = (0..ulen).map(|_| (0x20 + (rng.next() % 0x5f) as u8) as char).collect();
+            let mut pass: String = (0..plen).map(|_| (0x20 + (rng.next() % 0x5f) as u8) as char).collect();
+            // fixed special shapes: surrounding spaces, lengths 1 / 16, password longer / shorter than the username
+            let special = [("Bob ", "x"), (" Bob", "secret  "), ("A", "0123456789abcdef"), ("0123456789abcdef", "p"), ("a b", " "), ("ALICE", "PASSWORD123"), ("zz~", "{|}~")];
+            if round < special.len() { uname = special[round].0.to_string(); pass = special[round].1.to_string(); }
             let u = NormalizedString::new(&uname).unwrap(); let p = NormalizedString::new(&pass).unwrap();
             let (uu, pp) = (uname.to_ascii_uppercase(), pass.to_ascii_uppercase());
             let salt = rng.bytes::<32>();
